@@ -9,14 +9,14 @@ def term_idx(body, bb):
     return len(body.blocks[bb].stmts)
 
 
-def reachable_blocks(body, start=0, avoid=()):
+def reachable_blocks(body, start=0, avoid=(), succs=None):
     avoid = set(avoid)
     seen = set()
     if start in avoid:
         return seen
     dq = deque([start])
     seen.add(start)
-    succs = body.succs()
+    succs = succs or body.succs()
     while dq:
         b = dq.popleft()
         for s in succs[b]:
@@ -27,11 +27,15 @@ def reachable_blocks(body, start=0, avoid=()):
     return seen
 
 
-def dominators(body, entry=0):
+def dominators(body, entry=0, succs=None):
     """dict bb -> set of dominating bbs (incl. itself), over non-unwind edges"""
-    succs = body.succs()
-    reach = reachable_blocks(body, entry)
-    preds = {b: [p for p in body.preds()[b] if p in reach] for b in reach}
+    succs = succs or body.succs()
+    reach = reachable_blocks(body, entry, succs=succs)
+    preds = {b: [] for b in reach}
+    for b in reach:
+        for x in succs[b]:
+            if x in reach:
+                preds[x].append(b)
     dom = {b: set(reach) for b in reach}
     dom[entry] = {entry}
     # reverse post-order
@@ -81,7 +85,7 @@ def point_dominates(body, a, b, dom=None):
     return b[0] in dom and a[0] in dom[b[0]]
 
 
-def path_avoiding(body, start_pt, targets, barriers, start_inclusive=False):
+def path_avoiding(body, start_pt, targets, barriers, start_inclusive=False, succs=None):
     """Find a CFG path from program point start_pt (exclusive) to any block in `targets`
     (a set of bbs, reached at their entry... a target block counts when its *terminator* is
     reached) that does not pass any barrier point.
@@ -102,7 +106,7 @@ def path_avoiding(body, start_pt, targets, barriers, start_inclusive=False):
     targets = set(targets)
     if sb in targets:
         return [sb]
-    succs = body.succs()
+    succs = succs or body.succs()
     prev = {}
     dq = deque()
     for s in succs[sb]:
@@ -130,10 +134,10 @@ def path_avoiding(body, start_pt, targets, barriers, start_inclusive=False):
     return None
 
 
-def path_between(body, src_bb, dst_bb, avoid=()):
+def path_between(body, src_bb, dst_bb, avoid=(), succs=None):
     """witness path of bbs from src_bb to dst_bb (following >= 1 edge) avoiding blocks"""
     avoid = set(avoid)
-    succs = body.succs()
+    succs = succs or body.succs()
     prev = {}
     dq = deque()
     for s in succs[src_bb]:
@@ -159,10 +163,15 @@ def path_between(body, src_bb, dst_bb, avoid=()):
     return None
 
 
-def reaches(body, src_bb, dst_bb, avoid=()):
+def reaches(body, src_bb, dst_bb, avoid=(), succs=None):
     if src_bb == dst_bb:
         return True
-    return path_between(body, src_bb, dst_bb, avoid) is not None
+    return path_between(body, src_bb, dst_bb, avoid, succs) is not None
+
+
+def exec_succs(body, exec_edges):
+    """successor map restricted to executable edges (result of SCCP)"""
+    return {b: [s for s in ss if (b, s) in exec_edges] for b, ss in body.succs().items()}
 
 
 def lines_of_path(body, path):
